@@ -237,7 +237,13 @@ def liveness_cases(rng, n):
              # sizes far beyond anything physical: the size parameter no longer fits an integer
              ("sphere", 1e9, 1e9, (1.59, 0), (0, 0, 0)), ("sphere", 1e15, 1e15, (1.59, 0), (0, 0, 0)), ("sphere", float("inf"), float("inf"), (1.59, 0), (0, 0, 0)),
              ("spheroid", 1e10, 2e10, (1.59, 0), (0, 0.3, 0.2)), ("cylinder", 1e12, 1e12, (1.59, 0.01), (0, 0.3, 0.2)),
-             ("sphere", 1e-12, 1e-12, (1.59, 0), (0, 0, 0)), ("spheroid", 1e-9, 2e-9, (1.59, 0), (0, 0.3, 0.2))]
+             ("sphere", 1e-12, 1e-12, (1.59, 0), (0, 0, 0)), ("spheroid", 1e-9, 2e-9, (1.59, 0), (0, 0.3, 0.2)),
+             # refractive indices far beyond anything physical: |m| k r no longer fits an integer
+             ("sphere", 0.5, 0.5, (1e10, 0), (0, 0, 0)), ("spheroid", 0.3, 0.6, (1e9, 0), (0, 0.3, 0.2)), ("sphere", 0.5, 0.5, (1.5, 1e12), (0, 0, 0)),
+             # the largest sizes that still converge (expansion orders 100 ... 120, x = 83 ... 96): every array dimensioned for them
+             ("sphere", 6.8, 6.8, (1.59, 0), (0, 0, 0)), ("spheroid", 6.8, 6.8, (1.59, 0), (0, 0.4, 0.3))]
+    if int(rng.integers(0, 2)):
+        fixed.append(("sphere", 7.5, 7.5, (1.59, 0), (0, 0, 0)))
     for kind, p1, p2, nn, rot in fixed:
         cases.append(dict(kind=kind, p1=p1, p2=p2, n=list(nn), rot=list(rot), mode="field", x=[0.5, -1.0], y=[0.2, 2.0], z=20.0))
     cases.append(dict(kind="spheroid", p1=0.3, p2=0.6, n=[1.59, 0], rot=[0, 0.4, 0.2], mode="smat", theta=[-0.1, 0.5, 3.5], phi=[0.3, -0.2, 7.0]))
@@ -377,6 +383,20 @@ def oracle_case(i, seed):
                         viol.append(_v("C10:equal-axes-spheroid:sweep", "size sweep in units of %g um: the equal-axes spheroid after the sphere of the previous step differs from the sphere by %.3g" % (unit, dev),
                                        dict(kind="sweep", unit=unit, x0=x0, step=j, n=cxl(nn))))
                         break
+            if i == 0:
+                # ... and at one of the largest sizes that converge (x = 83 ... 96)
+                xb = float(rng.uniform(83.0, 95.0))
+                scb = Sphere(n=1.59, r=xb / K, center=(0, 0, 0))
+                tried.append(_t("sphere-limit-large", (round(xb, 3),)))
+                try:
+                    ab = vec(calc_field(pts, scb, illum_polarization=(1, 0), theory=Tmatrix(), **opt))
+                    bb = vec(calc_field(pts, scb, illum_polarization=(1, 0), theory=Mie(False, False), **opt))
+                    devb = float(np.abs(ab - bb).max() / np.abs(bb).max())
+                    if not (devb <= 5e-5):
+                        viol.append(_v("C10:sphere-limit:large", "sphere x=%.4g: Tmatrix field differs from Lorenz-Mie by %.3g of the peak" % (xb, devb), dict(kind="sphere-limit-large", x=xb)))
+                except Exception as exb:
+                    if type(exb).__name__ != "TmatrixFailure":
+                        raise
         elif kcase == 1:
             # inside the lens wrapper
             x = float(np.exp(rng.uniform(np.log(0.5), np.log(8.0))))
